@@ -1,4 +1,8 @@
 import PprofVerif.Lemmas.Crash
+import PprofVerif.Lemmas.ComposeCodec
+import PprofVerif.Lemmas.ComposeParse
+import PprofVerif.Model.Copier
+import PprofVerif.Lemmas.ComposeTree
 /-!
 # C09 — No profile content, option value or typed command crashes pprof
 
@@ -171,5 +175,86 @@ theorem demanglerMode_unknown_panics (m : Str) (h0 : m ≠ []) (h1 : m ≠ S "te
     (h3 : m ≠ S "none") :
     demanglerModeToOptions m = .panic "symbolizer.go demanglerModeToOptions: unknown demanglerMode" := by
   simp [demanglerModeToOptions, h0, h1, h2, h3]
+
+/-! ## composed with C01 (and C02): `profileCopier.newCopy` cannot reach its `panic(err)`
+
+`Model/Copier.lean` models `makeProfileCopier` / `newCopy` (driver.go) as compositions of the codec
+model.  C01's round trip shows that the bytes produced by `makeProfileCopier` always parse, so the
+`panic(err)` of `newCopy` is unreachable — for every profile meeting C01's hypotheses, in
+particular (C02) for every profile the parser itself returned. -/
+
+/-- **`newCopy` never panics on what `makeProfileCopier` made.**  For every valid profile with
+aligned units, key-sorted label maps, integers in their Go types and a re-encoding within the size
+limits: `makeProfileCopier` returns bytes `c`, and `newCopy c` — every time it is called — returns
+the normalised profile, never `panic(err)`. -/
+theorem newCopy_no_panic (p : Profile) (hv : p.Valid) (ha : p.unitsAligned = true)
+    (hs : p.mapsSorted = true) (hr : Codec.InRange p) (hz : ∀ x, Codec.preEncode p = .ok x → Codec.EncSizes x) :
+    ∃ c, Copier.makeProfileCopier p = .ok c ∧ Copier.newCopy c = .ok (Codec.Profile.normalize p) ∧
+      ∀ site, Copier.newCopy c ≠ .panic site := by
+  obtain ⟨c, h1, h2⟩ := Codec.parse_serialize_normalize p hv ha hs hr hz
+  have h3 : Copier.newCopy c = .ok (Codec.Profile.normalize p) := by
+    unfold Copier.newCopy; rw [h2]
+  refine ⟨c, h1, h3, ?_⟩
+  intro site hpan
+  rw [h3] at hpan
+  cases hpan
+
+/-- … in the CLI's situation — the profile is what `ParseData` returned for an input file —
+validity, alignment, sortedness and integer ranges are consequences (C02): only the size side
+condition on the re-encoding remains. -/
+theorem newCopy_no_panic_parsed (b₀ : Wire.Bytes) (p : Profile) (hparse : Parse.parseData b₀ = .ok p)
+    (hz : ∀ x, Codec.preEncode p = .ok x → Codec.EncSizes x) :
+    ∃ c, Copier.makeProfileCopier p = .ok c ∧ Copier.newCopy c = .ok (Codec.Profile.normalize p) ∧
+      ∀ site, Copier.newCopy c ≠ .panic site := by
+  obtain ⟨hv, ha, hs, hr⟩ := Parse.parseData_ok_contract b₀ p hparse
+  exact newCopy_no_panic p hv ha hs hr hz
+
+/-- The alignment hypothesis is needed: a numeric label with two values and one unit makes
+`makeProfileCopier` itself panic (`units[i]` in `preEncode`). -/
+theorem makeProfileCopier_misaligned_panics :
+    Copier.makeProfileCopier
+      { Parse.sampleParsed with
+        samples := [⟨[], [5], [], [([97], [7, 8])], [([97], [[98]])]⟩] } =
+      .panic "preEncode: units[i] index out of range" := by decide
+
+/-- `newCopy`'s `panic(err)` is real for bytes that are not a serialisation: e.g. the empty input. -/
+theorem newCopy_panics_on_unparsable :
+    Copier.newCopy [] = .panic "driver.go newCopy: panic(err): empty input file" := by decide
+
+-- non-vacuity: the sample input of C02 is accepted and its re-encoding meets the size condition
+example : Parse.parseData Parse.sampleBytes = .ok Parse.sampleParsed ∧
+    ∀ x, Codec.preEncode Parse.sampleParsed = .ok x → Codec.EncSizes x :=
+  ⟨Parse.parseData_sampleBytes, Parse.sampleParsed_encSizes⟩
+
+/-! ## composed with C04/C05's graph model: `TrimTree`'s consistency panics
+
+Full statement planned in DESIGN (`graph_internal_panics_unreachable`): none of the explicit
+panics of internal/graph — "TrimTree only works on trees", "Get parent assertion failed",
+"asymmetric edges" — is reachable from a report.  PARTIAL: proved for the two `TrimTree` panics
+(`Model/TreeChecks.lean`) on every graph `newTree` builds.  The "asymmetric edges" panic of
+`AddToEdgeDiv` compares the two Go maps `n.Out[to]` and `to.In[n]`; the graph model
+(`Model/Graph.lean`) keeps a single edge table keyed by (src, dest), so an asymmetry cannot even be
+expressed in it — that panic stays with the generative campaign. -/
+
+/-- For every sample list and every kept set, in the graph `newTree` builds every node has at most
+one in-edge (its parent is its path without the last frame), hence both consistency tests of
+`TrimTree` pass on it. -/
+theorem graph_internal_panics_unreachable_partial {κ : Type} [DecidableEq κ] (kept : List κ → Bool)
+    (ss : List (GSpec.GSample κ)) :
+    (∀ n, (Graph.inEdges (Graph.newTree ss) n).length ≤ 1) ∧
+    Graph.trimTreeChecks kept (Graph.newTree ss) = .ok () :=
+  ⟨(Graph.newTree_shaped ss).inEdges_le_one,
+   Graph.trimTreeChecks_ok_of_inEdges kept _ (Graph.newTree_shaped ss).inEdges_le_one⟩
+
+/-- The tests are real: on a graph that is not a tree (node 3 reached from 1 and from 2) the
+first one fires. -/
+theorem trimTreeChecks_panics_on_dag :
+    Graph.trimTreeChecks (fun _ => true)
+      (⟨[(1, ⟨0, 0⟩), (2, ⟨0, 0⟩), (3, ⟨0, 0⟩)], [((1, 3), ⟨0, false⟩), ((2, 3), ⟨0, false⟩)]⟩ : Graph.GState Nat) =
+      .panic "TrimTree only works on trees" := by decide
+
+-- non-vacuity: two samples sharing a prefix give a tree with a branching node
+example : (Graph.newTree [({ frames := [1, 2], w := 3, d := 0 } : GSpec.GSample Nat), { frames := [1, 3], w := 4, d := 0 }]).edges.map (·.1) =
+    [([1], [1, 2]), ([1], [1, 3])] := by decide
 
 end PV.Props.C09
